@@ -98,6 +98,7 @@ def c20_coverage(res, n_runs, t_batch, workers):
     cov['cells_reached'] = len(res.distinct_keys)
     cov['cells_nominal'] = 32 * 18 * 3
     cov['grid_histories'] = min(res.runs, gen_c20.GRID_SIZE)
+    cov['witness_histories'] = max(0, min(res.runs, gen_c20.FIXED_SIZE) - gen_c20.GRID_SIZE)
     cov['rule'] = ('the first %d evaluations are an exhaustive grid (every syntax name of both types incl. unknown ones x key kind x '
                    'candidate key x every subset of the three caller-controlled layers; the two built-in layers vary with the '
                    '(syntax, key) pair); every further evaluation = one seeded history of 3-12 ops: a host' % gen_c20.GRID_SIZE + ' keeps a global config and reloads it between calls '
@@ -127,7 +128,7 @@ PROFILES = {
     'C20': {
         'gen': gen_c20.gen_c20,
         'gen_indexed': gen_c20.gen_c20_indexed,
-        'fixed_runs': lambda tier: gen_c20.GRID_SIZE,
+        'fixed_runs': lambda tier: gen_c20.FIXED_SIZE,
         'props': ['C20'],
         'coverage': c20_coverage,
         'warnings': c20_warnings,
